@@ -1,0 +1,33 @@
+//go:build verif
+
+package override
+
+import (
+	"reflect"
+	"runtime"
+)
+
+// Thin exported wrappers for the determinism check (property C02). Compiled only with the `verif` build tag.
+
+func verifFuncName(f any) string { return runtime.FuncForPC(reflect.ValueOf(f).Pointer()).Name() }
+
+// VerifConvertIntoSequence exposes convertIntoSequence.
+func VerifConvertIntoSequence(v any) []any { return convertIntoSequence(v) }
+
+// VerifMergeSpecials returns the merge rule table as pattern → handler function name.
+func VerifMergeSpecials() map[string]string {
+	out := map[string]string{}
+	for k, v := range mergeSpecials {
+		out[string(k)] = verifFuncName(v)
+	}
+	return out
+}
+
+// VerifUnique returns the unicity rule table as pattern → indexer function name.
+func VerifUnique() map[string]string {
+	out := map[string]string{}
+	for k, v := range unique {
+		out[string(k)] = verifFuncName(v)
+	}
+	return out
+}
